@@ -729,9 +729,18 @@ def rv_places_read(rv):
 
 
 def short(name):
-    """Shorten a def path for reports."""
-    s = re.sub(r"<impl ([^>]*?)(<[^<>]*>)?( for [^>]*)?>", lambda m: "<impl " + m.group(1).rsplit("::", 1)[-1] + ">", name)
-    return s
+    """Shorten a def path for reports (keeps the implemented-for type of trait impls)."""
+    def rep(m):
+        inner = m.group(1)
+        mm = re.match(r"^(.*?)(<.*>)? for (.*)$", inner)
+        if mm:
+            tr = mm.group(1).rsplit("::", 1)[-1]
+            ty = re.sub(r"<.*$", "", mm.group(3)).rsplit("::", 1)[-1]
+            return "<impl %s for %s>" % (tr, ty)
+        return "<impl " + re.sub(r"<.*$", "", inner).rsplit("::", 1)[-1] + ">"
+    # innermost <impl ...> groups contain balanced <> ; handle one nesting level
+    return re.sub(r"<impl ((?:[^<>]|<(?:[^<>]|<[^<>]*>)*>)*)>", rep, name)
+
 
 
 # ----------------------------------------------------------------------------
@@ -956,3 +965,51 @@ def forward_aliases(f, seeds, through_calls=TRANSPARENT):
                         al.add(dest[0])
                         changed = True
     return al
+
+
+def origins(f, o, depth=14, _seen=None):
+    """Set of root descriptions of an operand, branching over locals with several full
+    assignments (e.g. a `let x = match .. { .. => Some(a), .. => None }`), and looking through
+    `Some(v)` / `Ok(v)` wrappers when the use projects `@Some.0` / `@Ok.0` / `@Continue.0`."""
+    _seen = _seen or set()
+    if o[0] == "k":
+        return {kdesc(f, o[1])}
+    p = o[1]
+    r = root_of(f, p[0], depth, TRANSPARENT)
+    if not isinstance(r, list):
+        return {describe(f, o, depth)}
+    place = r + p[1:]
+    l = place[0]
+    if l in _seen or (0 < l <= f["argc"]):
+        return {describe_place(f, place)}
+    ds = [x for x in defs_of_local(f).get(l, []) if x[0] in ("assign", "call")]
+    if len(ds) <= 1:
+        return {describe(f, o, depth)}
+    out = set()
+    rest = place[1:]
+    for d in ds:
+        if d[0] == "call":
+            out.add("call:%s(..)%s" % (callee_name(d[2]).rsplit("::", 1)[-1], "".join("@" + e[1] if isinstance(e, list) and e[0] == "d" else "" for e in rest)))
+            continue
+        rv = d[3]
+        if rv[0] == "agg":
+            variant = rv[2]
+            dc = [e for e in rest if isinstance(e, list) and e[0] == "d"]
+            if dc and dc[0][1] == variant and rv[3]:
+                fi = [e for e in rest if isinstance(e, list) and e[0] == "f"]
+                idx = fi[0][1] if fi else 0
+                if idx < len(rv[3]):
+                    out |= origins(f, rv[3][idx], depth - 2, _seen | {l})
+                    continue
+            if dc and dc[0][1] != variant:
+                continue      # other variant: this def cannot reach the projected payload
+            out.add("agg:%s%s" % (rv[1].rsplit("::", 1)[-1], ("::" + variant) if variant else ""))
+        elif rv[0] == "use":
+            if rv[1][0] == "k":
+                out.add(kdesc(f, rv[1][1]))
+            else:
+                q = rv[1][1]
+                out |= origins(f, ["cp", q + rest], depth - 2, _seen | {l})
+        else:
+            out.add(rv[0])
+    return out or {describe(f, o, depth)}
